@@ -160,6 +160,11 @@ type BlockSpec struct {
 	Txs    types.Transactions
 	Extra  string
 	NoSave bool // do not store the block in the factory database
+	// GasLimit overrides the miner's default choice when non-zero; MinerAddr overrides the address
+	// written into the header (default: the key's deputy address)
+	GasLimit    uint64
+	SetGasLimit bool // use GasLimit even when it is zero
+	MinerAddr   *common.Address
 }
 
 // Make executes spec.Txs on spec.Parent and seals + signs the block. invalid are the transactions
@@ -177,6 +182,12 @@ func (f *Factory) Make(spec BlockSpec) (block *types.Block, invalid types.Transa
 		header = &types.Header{ParentHash: spec.Parent.Hash(), MinerAddress: spec.Miner.Addr, Height: probe.Height + 1, GasLimit: probe.GasLimit, Extra: spec.Extra}
 	}
 	header.Time = spec.Time
+	if spec.GasLimit != 0 || spec.SetGasLimit {
+		header.GasLimit = spec.GasLimit
+	}
+	if spec.MinerAddr != nil {
+		header.MinerAddress = *spec.MinerAddr
+	}
 	txs := make(types.Transactions, len(spec.Txs))
 	for i, tx := range spec.Txs {
 		txs[i] = tx.Clone()
